@@ -253,6 +253,7 @@ func runC18(c *Ctx) {
 	c18EmittedDeclsMarked(c)
 	c19CopiedWriters(c)
 	c17Materialise(c)
+	structNameAgreement(c)
 
 	c.R.Rule("sequential", "the generator packages contain no go statement (scheduling and GOMAXPROCS cannot influence gqlgen's own generator code)", 1)
 	ngo := 0
